@@ -540,7 +540,7 @@ func main() {
 	cmd.Dir = dir
 	if outp, err := cmd.CombinedOutput(); err != nil {
 		// the generated assembly does not build: a violation of what the property needs
-		o.emit("accept-cpu-build "+hexs(firstLine(string(outp))), "ok")
+		o.emit("accept-cpu-build "+hexs(c16firstLine(string(outp))), "ok")
 		st["cpu_build_failed"]++
 		return nil
 	}
@@ -574,7 +574,7 @@ func main() {
 		}
 		var data []byte
 		if ok && len(g) > 1 {
-			data = unhexBytes(g[1])
+			data = c16unhexBytes(g[1])
 		}
 		req = append(req, itoa(len(f.mems)))
 		idx := 0
@@ -605,7 +605,7 @@ func main() {
 	return nil
 }
 
-func firstLine(s string) string {
+func c16firstLine(s string) string {
 	s = strings.TrimSpace(s)
 	if len(s) > 300 {
 		s = s[:300]
@@ -613,7 +613,7 @@ func firstLine(s string) string {
 	return s
 }
 
-func unhexBytes(s string) []byte {
+func c16unhexBytes(s string) []byte {
 	var out []byte
 	for i := 0; i+1 < len(s); i += 2 {
 		v, err := strconv.ParseUint(s[i:i+2], 16, 8)
